@@ -19,7 +19,10 @@ MANIFEST = dict(
           "Tie: after every call of generated histories and of the exhaustive small-scope enumeration (thorough), the real "
           ".contents nesting is compared by identity with an independent Python list-of-lists model of the documented effect and "
           "with the Lean model; for smooth() the children of every tag of the subtree, by identity and text, are compared with the Lean "
-          "specification function squashId on trees with runs of strings (empty strings, NavigableString subclasses, Comment/CData between them)."),
+          "specification function squashId on trees with runs of strings (empty strings, NavigableString subclasses, Comment/CData between them). "
+          "Copies (copy-histories stream): copy.copy / copy.deepcopy / __copy__ of elements anywhere in the forest are calls of the histories "
+          "(Model/HeapCopy.lean); documented effect = a new tree nested like the source beneath nothing, nothing else moves; checked against the "
+          "spec, the Lean model and directly (new objects only, isomorphic, no pointer of any other element changed)."),
     design="7/C02",
     note=("Positions are any Python integers (negative ones read as list.insert does, Model/Heap.lean normPos). Calls that would put an "
           "element beneath itself are outside the quantifier. Repeated arguments inside one multi-argument call are carried by the "
@@ -79,7 +82,9 @@ def destroyed_wrong(w, doomed, dead_ids):
             "is beneath the element but was not destroyed" if not wrong.decomposed else "was destroyed but still has children")
 
 
-def run_history(ctx, rng, steps, stream, ops_fixed=None, kinds_fixed=None, parsed=None):
+def run_history(ctx, rng, steps, stream, ops_fixed=None, kinds_fixed=None, parsed=None, copies=0.0):
+    """copies > 0: that share of the steps copies an element (`cp`); non-trivial is then: a node of a copy was the target or an
+    argument of a later call"""
     if kinds_fixed is None:
         parsed = rng.random() < 0.4
         w, kinds, prefix = heapsim.make_world(rng, parsed)
@@ -97,13 +102,17 @@ def run_history(ctx, rng, steps, stream, ops_fixed=None, kinds_fixed=None, parse
         outcomes[-1] = "ok"
         shapes[-1] = shape_of_world(w)
     nontrivial = False
+    copy_used = False
     it = iter(ops_fixed) if ops_fixed is not None else None
     for s in range(steps):
-        op = next(it, None) if it is not None else heapsim.gen_op(rng, w, stats)
+        op = next(it, None) if it is not None else heapsim.gen_op(rng, w, stats, copies=copies)
         if op is None:
             break
         ops.append(op)
         before = shape_of_world(w)
+        if copies and any(a in w.copy_labels for fld in op.split(":")[1:] for a in fld.split(",")):
+            copy_used = True
+            ctx.count("cp:later-call-uses-a-node-of-a-copy")
         # decompose() / clear(decompose=True): exactly the elements of the subtree (of the element / of each child) are destroyed - the
         # documented observable is `.decomposed` - and a destroyed Tag has no children (Props/C02 decompose_effect, clear_decompose_effect)
         doomed = doomed_by(w, op)
@@ -118,6 +127,14 @@ def run_history(ctx, rng, steps, stream, ops_fixed=None, kinds_fixed=None, parse
                 break
         ctx.count("op:" + op.split(":")[0])
         ctx.count("outcome:" + st)
+        if op.startswith("cp:") and st == "ok" and w.copy_oracle_msg:
+            # the copy clause evaluated directly (heapsim.copy_oracle): a new tree nested like the source, nothing else moved
+            ctx.violation(f"{op}: the copy is not a new tree beside an untouched forest: " + w.copy_oracle_msg,
+                          case={"kinds": kinds, "ops": ops, "parsed": bool(parsed), "before": before, "twin": getattr(w, "twin_choices", None)},
+                          observed=w.copy_oracle_msg, stream=stream)
+            outcomes.append(None)
+            shapes.append(None)
+            break
         outcomes.append(st)
         if st != "ok":
             shapes.append(None)
@@ -156,6 +173,11 @@ def run_history(ctx, rng, steps, stream, ops_fixed=None, kinds_fixed=None, parse
         ctx.count(k, v)
         if k in ("arg:same-parent", "arg:elsewhere", "arg:soup", "arg:repeat") and v:
             nontrivial = True
+    if copies:
+        nontrivial = copy_used
+        for k, v in w.call_forms.items():
+            if k.startswith("cp"):
+                ctx.count("cp:form-" + ["copy.copy", "copy.deepcopy", "__copy__"][int(k[2:])], v)
     line = f"c01 run {kinds} {';'.join(ops) if ops else '-'} ptr"
     return line, outcomes, shapes, {"kinds": kinds, "ops": ops, "parsed": bool(parsed), "twin": getattr(w, "twin_choices", None)}, nontrivial
 
@@ -465,7 +487,11 @@ def run(ctx: Ctx):
                 "them, nested tags, BeautifulSoup roots); the children of every tag of the subtree after smooth(), by identity and text, vs the "
                 "direct oracle (runs of >= 2 plain strings become one new string) and vs the Lean model's squashId (spec) and smooth (code mirror); "
                 "non-trivial = at least one run was merged. After every decompose() / clear(decompose=True) of the histories: exactly the elements of "
-                "the subtree report .decomposed, and a destroyed Tag has no children")
+                "the subtree report .decomposed, and a destroyed Tag has no children. "
+                "copy-histories stream: the same histories with 13% of the calls a copy (copy.copy / copy.deepcopy / __copy__, subtrees of <= 12 nodes) of "
+                "any live element incl. BeautifulSoup objects, nodes of extracted fragments and of earlier copies; documented effect = a new tree "
+                "nested like the source, beneath nothing, nothing else moves (spec + Lean model + direct oracle: new objects only, isomorphic, "
+                "no pointer of any other element changed); non-trivial there = a node of a copy was the target or an argument of a later call")
     ctx.assumptions = ["calls that would put an element beneath itself are never generated (outside the quantifier)",
                        "positions are any Python integers: negative ones count from the end as in list.insert (Model/Heap.lean normPos)"]
     drv = Driver()
@@ -511,6 +537,26 @@ def run(ctx: Ctx):
         if len([v for v in ctx.violations if not v.get("no_failing_input_found")]) >= 8:
             break
     flush()
+    copy_stream(ctx, buf, flush)
+
+
+def copy_stream(ctx, buf, flush):
+    """copy-histories: the same histories with about 13 % of the calls a copy (copy.copy / copy.deepcopy / __copy__) of a random live
+    element; the clone's nodes are targets and arguments of later calls like every other element. After every call the .contents nesting
+    vs the spec (a copy = new elements nested like the source, beneath nothing; nothing else changes) and vs the Lean model
+    (Model/HeapCopy.lean), and right after a copy the direct oracle heapsim.copy_oracle."""
+    steps = ctx.n(25, 40)
+    for i in range(ctx.n(150, 2000)):
+        rng = ctx.rng("copyhist", i)
+        line, outcomes, shapes, case, nt = run_history(ctx, rng, steps, "copy-histories", copies=0.13)
+        case["seed_index"] = i
+        ctx.case(("CP", i) if nt else None, sample=case if i < 1 else None)
+        buf.append((line, outcomes, shapes, case, "copy-histories"))
+        if len(buf) >= 200:
+            flush()
+        if len([v for v in ctx.violations if not v.get("no_failing_input_found")]) >= 8:
+            break
+    flush()
 
 
 def replay(path):
@@ -545,6 +591,10 @@ def replay(path):
                 print(i, op, st)
                 print(f"property C02 violated: after {op} an element {what}")
                 return 1
+        if op.startswith("cp:") and w.copy_oracle_msg:
+            print(i, op, st)
+            print(f"property C02 violated: after {op} the copy is not a new tree beside an untouched forest: {w.copy_oracle_msg}")
+            return 1
         spec.apply(op)
         got, want = shape_of_world(w), spec.shape()
         bad = [(l, k, want.get(l)) for l, k in got.items() if want.get(l) != k]
